@@ -2,7 +2,8 @@
 
 exit 0  property held on everything explored (KNOWN-FINDING lines possible)
 exit 1  VIOLATION property=<id> replay=<path>   (confirmed against the native build)
-exit 2  INCONCLUSIVE (unsupported MIR after an edit, model/native disagreement, solver unknown, deadline, build failure)
+exit 2  INCONCLUSIVE (unsupported MIR after an edit, model/native disagreement, solver unknown, build failure; in the
+        quick tier also an unfinished space -- the thorough tier treats its time budget as a stated bound)
 """
 import argparse
 import hashlib
@@ -232,7 +233,12 @@ def main():
     status = 0
     if confirmed:
         status = 1
-    if unsupported or mismatches or unreproduced or incomplete or unreplayable:
+    # the time budget: in the quick tier an unfinished space makes the run INCONCLUSIVE (the quick bounds are part of
+    # the claim); in the thorough tier the budget is a stated bound of its own -- the run reports what was explored
+    # ("held on everything explored"), lists the spaces it could not finish and says so in the verdict line
+    strict_deadline = tier == 'quick' or os.environ.get('VERIF_STRICT_DEADLINE') == '1'
+    budget_cut = incomplete if not strict_deadline else []
+    if unsupported or mismatches or unreproduced or (incomplete and strict_deadline) or unreplayable:
         status = 2 if not confirmed else 1
     if total.completed == 0 and not confirmed:
         status = 2
@@ -260,6 +266,7 @@ def main():
             'paths_infeasible': total.infeasible, 'paths_cut_by_encoding_bound': total.cut, 'cut_reasons': cut_reasons,
             'solver_queries': total.solver_calls, 'solver_seconds': round(total.solver_s, 1),
             'exhaustive': not incomplete and not unsupported,
+            'spaces_cut_by_time_budget': len(budget_cut), 'time_budget_s': limit,
             'explanation': 'bounded symbolic execution of rustc MIR regenerated from /repo: states = MIR basic blocks '
                            'executed, transitions = solver-decided branch decisions + paths; every obligation is an '
                            'SMT query "path condition and not(assertion)" answered unsat (discharged) or sat '
@@ -271,7 +278,7 @@ def main():
             'panic_samples': panic_samples[:4],
             'known_findings_hit': [{'clause': c, 'shape': s, 'paths': n} for (c, s), (_, _, n) in known_hits.items()],
             'model_native_mismatches': mismatches[:5], 'unsupported': [u[1] for u in unsupported[:3]],
-            'unreproduced_counterexamples': unreproduced[:5], 'incomplete_spaces': incomplete[:5],
+            'unreproduced_counterexamples': unreproduced[:5], 'incomplete_spaces': incomplete[:40],
             'cross_engine': cross[1] if cross else None,
             'kernel_counterexamples': [{'clause': v['clause'], 'msg': v['msg']} for v in unreplayable[:5]],
         },
@@ -307,8 +314,11 @@ def main():
               ('NOTE' if confirmed else 'INCONCLUSIVE', prop, ', '.join(kinds)))
         for v in unreplayable[:3]:
             log('kernel counterexample: %s: %s' % (v['clause'], v['msg']))
-    if incomplete:
+    if incomplete and strict_deadline:
         print('INCONCLUSIVE property=%s reason=deadline: %d spaces unfinished' % (prop, len(incomplete)))
+    elif incomplete:
+        print('NOTE property=%s time budget of %d s reached: %d of %d spaces only partly explored (listed in the evidence '
+              'file under incomplete_spaces; nothing is claimed for their unexplored part)' % (prop, limit, len(incomplete), len(spaces)))
     if cross_problem:
         print('INCONCLUSIVE property=%s reason=cross-engine check (Kani) %s' % (prop, cross_problem))
         log(str(cross[1].get('tail', ''))[-800:])
@@ -316,7 +326,8 @@ def main():
           'solver_s=%.1f validated_natively=%d wall=%.1fs -> %s' %
           (prop, tier, len(spaces), total.paths, total.completed, total.panics, total.cut, total.obligations,
            total.discharged, total.solver_calls, total.solver_s, validated, wall,
-           {0: 'HOLDS (within bounds)', 1: 'VIOLATION', 2: 'INCONCLUSIVE'}[status]))
+           {0: 'HOLDS (within bounds%s)' % ('; %d spaces cut by the time budget' % len(budget_cut) if budget_cut else ''),
+            1: 'VIOLATION', 2: 'INCONCLUSIVE'}[status]))
     return status
 
 
